@@ -67,8 +67,9 @@ manifest = {
     'not_applicable': na,
     'notes': 'Static analysis only: nothing under /repo is imported or executed by a check. Exit 0 = all structural obligations of the '
              'property hold on the current working tree; exit 1 + VIOLATION line = an obligation fails at a named construct; exit 2 + '
-             'ANALYSIS-ERROR = the analysis could not be carried out. Seven genuine defects found by the rules were repaired in /repo '
-             'as fix: commits and are listed as fixed: entries in known_findings.json (they suppress nothing).',
+             'ANALYSIS-ERROR = the analysis could not be carried out. Twenty genuine defects were repaired in /repo as fix: commits and are '
+             'listed as fixed: entries in known_findings.json (they suppress nothing); one (F21, a PartBatcher inside a Group) is recorded '
+             'there as known and printed as KNOWN-FINDING lines by the C08 check, which exits 0.',
 }
 (VERIF / 'MANIFEST.json').write_text(json.dumps(manifest, indent=1) + '\n')
 print(f'{len(checks)} claimed, {len(na)} not claimed')
